@@ -1212,3 +1212,17 @@ package rpc
 //@   loop 4: invariant tInv(t) && forall(k, rangeidx(), rangen(), has(t.idleConns, rangekey(k)))
 //@   loop 5: invariant tInv(t) && t.running && forall(k, rangeidx(), rangen(), has(t.idleConns, rangekey(k))) && cq != nil && sid(cq.addr) == rangekey(rangeidx()-1) && has(t.idleConns, sid(cq.addr)) && t.idleConns[sid(cq.addr)] == cq && 0 <= i && i <= length && length - i <= cq.length
 //@   atcall (*Conn).Close#1: [C15] gb_sawIdle(pc.Conn)
+
+//@ lockinv Server.mut
+//@   property C20
+//@   guards Server.listeners, Elem<socket.Listener>
+//@   invariant forall(i, 0, len(self.listeners), !isnil(self.listeners[i]))
+//@ iface socket.Listener.Close
+//@   params l
+//@   ghostset gg_lisClose() = gg_lisClose() + 1
+//@ func (*Server).Close
+//@   property C20
+//@   requires server != nil
+//@   ensures result == nil
+//@   loop 1: invariant forall(i, 0, len(server.listeners), !isnil(server.listeners[i]))
+//@   atcall socket.Listener.Close#1: [C20] holds(Server_mut)
